@@ -5,4 +5,5 @@ INVARIANT ValueLaw
 INVARIANT MsgLaw
 INVARIANT ClassLaw
 INVARIANT FrameLaw
+INVARIANT RunLaw
 CHECK_DEADLOCK FALSE
